@@ -471,8 +471,10 @@ def _auto_inlinable(q):
         if q.startswith(front.PKG):
             try:
                 fi = front.find_function(q)
-                ok = not any(isinstance(n, (ast.For, ast.While, ast.ListComp, ast.DictComp, ast.SetComp, ast.GeneratorExp,
-                                            ast.Yield, ast.YieldFrom, ast.Lambda)) for n in ast.walk(fi.node)) \
+                ok = not any(isinstance(n, (ast.While, ast.ListComp, ast.DictComp, ast.SetComp, ast.GeneratorExp,
+                                            ast.Yield, ast.YieldFrom, ast.Lambda)) or
+                             (isinstance(n, ast.For) and not isinstance(n.iter, (ast.Tuple, ast.List)))     # display loops are unrolled
+                             for n in ast.walk(fi.node)) \
                     and (fi.node.end_lineno - fi.node.lineno) <= 40
             except Exception:
                 ok = False
